@@ -152,6 +152,42 @@ def _build(cfg):
 
     params = jinns.parameters.Params(nn_params=u.init_params(), eq_params={})
     import warnings
+    if cfg.get("sys"):
+        # a system of two equations sharing one unknown: residuals f and 0.1 - 1.1 f (opposite signs); the squared residual of
+        # the system is the SUM of the equations' squared residuals
+        def comp(r, j):
+            r = jnp.squeeze(r)
+            return (r if j == 0 else 0.1 - 1.1 * r)[None]
+        if kind == "ode":
+            def mk(j):
+                class E(ODE):
+                    def equation(self, t, ud, pd):
+                        return comp(rfun(jnp.squeeze(t)) + 0.0 * jnp.sum(ud["a"](t, pd.extract_params("a"))), j)
+                return E(Tmax=1)
+        elif kind == "statio":
+            def mk(j):
+                class E(PDEStatio):
+                    def equation(self, x, ud, pd):
+                        return comp(rfun(x) + 0.0 * jnp.sum(ud["a"](x, pd.extract_params("a"))), j)
+                return E(Tmax=1)
+        else:
+            def mk(j):
+                class E(PDENonStatio):
+                    def equation(self, t, x, ud, pd):
+                        return comp(rfun(jnp.squeeze(t), x) + 0.0 * jnp.sum(ud["a"](t, x, pd.extract_params("a"))), j)
+                return E(Tmax=1)
+        pdict = jinns.parameters.ParamsDict(nn_params={"a": u.init_params()}, eq_params={})
+        with warnings.catch_warnings():
+            warnings.simplefilter("ignore")
+            if kind == "ode":
+                loss = jinns.loss.SystemLossODE(u_dict={"a": u}, dynamic_loss_dict={"e1": mk(0), "e2": mk(1)},
+                                                loss_weights=jinns.loss.LossWeightsODEDict(dyn_loss=1.0, initial_condition=1.0, observations=1.0),
+                                                params_dict=pdict)
+            else:
+                loss = jinns.loss.SystemLossPDE(u_dict={"a": u}, dynamic_loss_dict={"e1": mk(0), "e2": mk(1)},
+                                                loss_weights=jinns.loss.LossWeightsPDEDict(), params_dict=pdict)
+        rex = lambda *a: rexact0(*a) ** 2 + (0.1 - 1.1 * rexact0(*a)) ** 2
+        return g, loss, pdict, axes, rex, (lo, hi)
     with warnings.catch_warnings():
         warnings.simplefilter("ignore")
         if kind == "ode":
